@@ -71,8 +71,11 @@ class RandomTable(Table):
         nr = self.numrows
         seed = self.seed
 
-        # N.B., we want this to be stable, i.e., same data each time
-        pyrandom.seed(seed)
+        # N.B., we want this to be stable, i.e., same data each time, so each
+        # iterator uses its own generator and is independent of other iterators
+        # and of any other use of the random module
+        rnd = pyrandom.Random()
+        rnd.seed(seed)
 
         # construct fields
         flds = ["f%s" % n for n in range(nf)]
@@ -83,7 +86,7 @@ class RandomTable(Table):
             # artificial delay
             if self.wait:
                 time.sleep(self.wait)
-            yield tuple(pyrandom.random() for n in range(nf))
+            yield tuple(rnd.random() for n in range(nf))
 
     def reseed(self):
         self.seed = randomseed()
@@ -184,8 +187,15 @@ class DummyTable(Table):
         seed = self.seed
         fields = self.fields.copy()
 
-        # N.B., we want this to be stable, i.e., same data each time
+        # N.B., we want this to be stable, i.e., same data each time. The field
+        # functions draw from the global random generator, so each iterator
+        # keeps its own generator state and switches it in only while a row is
+        # being generated. This keeps iterators independent of each other and
+        # of any other use of the random module
+        outer = pyrandom.getstate()
         pyrandom.seed(seed)
+        state = pyrandom.getstate()
+        pyrandom.setstate(outer)
 
         # construct header row
         hdr = tuple(text_type(f) for f in fields.keys())
@@ -196,7 +206,14 @@ class DummyTable(Table):
             # artificial delay
             if self.wait:
                 time.sleep(self.wait)
-            yield tuple(fields[f]() for f in fields)
+            outer = pyrandom.getstate()
+            pyrandom.setstate(state)
+            try:
+                row = tuple(fields[f]() for f in fields)
+            finally:
+                state = pyrandom.getstate()
+                pyrandom.setstate(outer)
+            yield row
 
     def reseed(self):
         self.seed = randomseed()
